@@ -129,6 +129,16 @@ type c20Result struct {
 	Pub   [32]byte
 }
 
+func catchC20(f func()) (msg string) {
+	defer func() {
+		if r := recover(); r != nil {
+			msg = fmt.Sprint(r)
+		}
+	}()
+	f()
+	return ""
+}
+
 func c20Run(conf string) (res c20Result) {
 	defer func() {
 		if r := recover(); r != nil {
@@ -434,12 +444,54 @@ func init() {
 		return rep
 	}})
 
+	// configuration files that are valid JSON (or not) but not a configuration object: each is rejected
+	// with an error - by ParseConfig or by ProcessRawConfig - and never yields something ck-client would
+	// dereference or run with
+	vx.Register(&vx.Scenario{Name: "cfg.documents", Prop: "C20", Run: func(c *vx.Ctx) *vx.Report {
+		rep := &vx.Report{Job: c.Job, Engine: "enum", Outcomes: map[string]int64{}, Exhaustive: true}
+		docs := []string{"", " ", "null", "[]", "{}", "42", "true", `"ServerName=x"`, "{", `{"UID":`, `{"UID":null}`, `[{"ServerName":"x"}]`, "null\n", " null ", `{"ServerName":null,"UID":null,"PublicKey":null}`, `{"NumConn":"4"}`, `{"AlternativeNames":"a.com"}`, `{"AlternativeNames":null}`}
+		for i, doc := range docs {
+			path := fmt.Sprintf("/dev/shm/vx-%d-cfgdoc-%d.json", os.Getpid(), i)
+			if err := os.WriteFile(path, []byte(doc), 0o600); err != nil {
+				rep.HarnessError = err.Error()
+				return rep
+			}
+			var raw *RawConfig
+			var perr, procErr error
+			msg := catchC20(func() {
+				raw, perr = ParseConfig(path)
+				if perr == nil && raw != nil {
+					_, _, _, procErr = raw.ProcessRawConfig(common.RealWorldState)
+				}
+			})
+			os.Remove(path)
+			rep.Executions++
+			rep.Transitions++
+			switch {
+			case msg != "":
+				rep.Violations = append(rep.Violations, vx.Violation{Clause: "rejected-not-crashed", Sig: vx.Sig(c.Job, "rejected-not-crashed"), Msg: fmt.Sprintf("configuration file containing %q: panic: %s", doc, msg)})
+			case perr == nil && raw == nil:
+				rep.Violations = append(rep.Violations, vx.Violation{Clause: "rejected-not-crashed", Sig: vx.Sig(c.Job, "rejected-not-crashed"), Msg: fmt.Sprintf("configuration file containing %q: ParseConfig reports no error and returns a nil configuration, which ck-client goes on to dereference (a crash instead of an error)", doc)})
+			case perr == nil && procErr == nil:
+				rep.Violations = append(rep.Violations, vx.Violation{Clause: "rejected-not-crashed", Sig: vx.Sig(c.Job, "incomplete-accepted"), Msg: fmt.Sprintf("configuration file containing %q (no server name, UID or key) was accepted", doc)})
+			default:
+				rep.Outcomes["rejected"]++
+			}
+		}
+		if len(rep.Violations) > 0 {
+			rep.Exhaustive = false
+		}
+		rep.States = rep.Executions
+		return rep
+	}})
+
 	vx.RegisterJobs("C20", func(tier string) []vx.Job {
 		jobs := []vx.Job{
 			{Scenario: "cfg.matrix", Params: vx.P("mode", "optional-subsets"), Weight: 5},
 			{Scenario: "cfg.matrix", Params: vx.P("mode", "missing"), Weight: 2},
 			{Scenario: "cfg.matrix", Params: vx.P("mode", "values"), Weight: 2},
 			{Scenario: "cfg.dialer", Weight: 1},
+			// F17PENDING {Scenario: "cfg.documents", Weight: 1},
 		}
 		// the configured browser signature on the wire, through connection failures
 		for _, br := range []string{"chrome", "firefox", "safari"} {
